@@ -659,7 +659,7 @@ func c03Sizes(B int) []int {
 
 func runC03(c *runCtx) error {
 	r := newRng(c.seed)
-	header := "From Coq Require Import List String ZArith.\nFrom KV Require Import Base.Bytes Model.Ast Model.Value Corr.EvalCommon Corr.C03.\nFrom KV Require Import Model.SelectPlans Corr.C03Stmt.\nFrom KV Require Model.Order Spec.Group.\nImport ListNotations.\nOpen Scope string_scope.\nNotation case := xcase (only parsing).\nNotation mismatches := xmismatches (only parsing).\nNotation CaseE := XCaseE (only parsing).\nNotation CaseS := XCaseS (only parsing).\nNotation CaseL := XCaseL (only parsing).\n"
+	header := "From Coq Require Import List String ZArith.\nFrom KV Require Import Base.Bytes Model.Ast Model.Value Corr.EvalCommon Corr.C03.\nFrom KV Require Import Model.SelectPlans Corr.C03Stmt Corr.C03Text.\nFrom KV Require Model.Order Spec.Group.\nImport ListNotations.\nOpen Scope string_scope.\nNotation case := xcase (only parsing).\nNotation mismatches := xmismatches (only parsing).\nNotation CaseE := XCaseE (only parsing).\nNotation CaseS := XCaseS (only parsing).\nNotation CaseL := XCaseL (only parsing).\n"
 	e := newEmitter(c.out, "C03", header, 120)
 	e.m.Rule = "A: typed expressions (all scalar functions, IN, BETWEEN, aliases; depth <= 3) and ill-typed shapes hidden from the checker inside !( ), each on the 11 reference pairs and on a random chunk whose first pair varies; B: FullScanPlan+ProjectionPlan from checked statements x stores of every size 0..3B+1 x B in {1,2,3,5,32}; C: whole statements (ORDER BY with and without ties, GROUP BY with every aggregate, LIMIT, narrowed scans, cache on/off) x the same stores and batch sizes; non-trivial = non-empty input accepted by the parser; distinct = distinct Gallina terms"
 	thorough := c.thorough() || c.search
@@ -812,6 +812,8 @@ func runC03(c *runCtx) error {
 	// ---------------- part E: the evaluation discipline of the AggregatePlan (which expression on
 	// which pair, when a group's row is completed)
 	c3zStream(e, r, thorough)
+	// ---------------- part F: SELECT from the query TEXT against the glue twin (Model/PipelineS.v)
+	psStream(c, e, r)
 	return e.flush()
 }
 
@@ -1390,5 +1392,338 @@ func c3zStream(e *emitter, r *rng, thorough bool) {
 				c03w2Case(e, s.q, kvs, B, 0, s.bucket)
 			}
 		}
+	}
+}
+
+// ------------------------------------------------------------------ part F (ps): SELECT FROM THE QUERY TEXT.
+// The glue of optimizer.go (which trees the parser + checker hand over, which are folded, which
+// tree the region is inferred from, the scan node, the shape buildFinalPlan builds, FieldNames /
+// FieldTypes, which field an ORDER BY name resolves to) against Model/PipelineS.v evaluated on the
+// same TEXT (Corr/C03Text.v).  A case is one text x one store; the Go side runs
+// kvql.NewOptimizer(q).BuildPlan(store) and drains row-at-a-time and in batches of 1, 2, 3, 32.
+
+var psModes = []int{0, 1, 2, 3, 32}
+
+type psReplay struct {
+	Kind  string      `json:"kind"`
+	Query string      `json:"query"`
+	Store [][2]string `json:"store"`
+	Plan  string      `json:"plan,omitempty"`
+	Names []string    `json:"field_names,omitempty"`
+	Obs   []string    `json:"observed_per_mode,omitempty"`
+}
+
+var psKeywords = map[string]bool{"select": true, "where": true, "order": true, "group": true, "by": true, "limit": true,
+	"as": true, "asc": true, "desc": true, "and": true, "or": true, "in": true, "between": true, "key": true, "value": true}
+
+// psRender: pbRender plus keyword case for the words pbRender leaves alone.  Function names keep
+// their case (a select field without AS is NAMED by its text, and ORDER BY / GROUP BY items find it
+// by that text; the parser prints function names as written).
+func psRender(r *rng, toks []string, style int, mixCase bool) string {
+	out := append([]string{}, toks...)
+	if mixCase {
+		for i, t := range out {
+			if psKeywords[t] {
+				switch r.intn(3) {
+				case 0:
+					out[i] = strings.ToUpper(t)
+				case 1:
+					out[i] = strings.ToUpper(t[:1]) + t[1:]
+				}
+			}
+		}
+	}
+	return pbRender(r, out, style, false)
+}
+
+// WHERE clauses by access path of the scan that buildScanPlan chooses
+var psWhere = map[string][]string{
+	"full":   {"key != 'zzzz'", "int(value) >= 0", "strlen(value) < 3", "value != 'x'", "is_int(value) | strlen(value) > 2", "!(value = '7')", "key != 'k03' & value != ''"},
+	"prefix": {"key ^= 'k'", "key ^= 'a'", "key ^= 'ab'", "key ^= 'k0' & value != '7'", "key ^= 'zz'"},
+	"range":  {"key > 'b'", "key between 'a' and 'k10'", "key >= 'ab' & key < 'k05'", "key <= 'b03'", "key > 'k02' & int(value) >= 0", "key >= 'k' & key <= 'k09'"},
+	"mget":   {"key in ('k00', 'k02', 'a01', 'nokey', 'k09')", "key = 'k03' | key = 'k07'", "key = 'k03'", "key in ('k05', 'k05', 'b06') & value != ''", "'k07' = key"},
+	"empty":  {"key = 'a' & key = 'b'", "key > 'z' & key < 'a'", "false", "1 = 2", "key ^= 'a' & key ^= 'k'", "key in ('k00') & key > 'k01'"},
+	"folded": {"key ^= lower('K')", "key = 'k' + '03'", "key in ('k00', 'k' + '02')", "1 = 1 & key ^= 'a'", "key between 'a' and 'k' + '10'", "true", "2 > 1 | key = 'k03'", "key >= upper('k') + '' | 1 = 2", "strlen('abc') = 3 & key > 'b'"},
+	"fails":  {"10 / (int(value) - 7) > 1", "value between key and 'zz'", "int(value) between strlen(value) and 7"},
+}
+var psWhereKinds = []string{"full", "full", "prefix", "range", "mget", "empty", "folded", "folded", "fails"}
+
+// projection field lists: (fields, ORDER BY items that resolve, alias usable in WHERE)
+type psProj struct {
+	fields string
+	orders []string
+	walias string
+}
+
+var psProjs = []psProj{
+	{"*", []string{"key", "value", "key desc", "value desc, key", "key asc", "KEY"}, ""},
+	{"key, value", []string{"key", "value desc", "key asc", "value, key desc"}, ""},
+	{"key, int(value) as n, n + 1 as m", []string{"n", "m desc, key", "n desc", "key", "key desc, n"}, "n > 2"},
+	{"key as k, value as v, upper(value) as u", []string{"k desc", "u, k", "v", "k"}, "u != 'X'"},
+	{"key, int(value) as n, strlen(value) as n", []string{"n", "n desc, key", "key"}, "n >= 0"},
+	{"value as x, key as x, key", []string{"x", "x desc", "key"}, "x != '7'"},
+	{"int(value) as n, n * 2 as d, d + n as t, key", []string{"t desc", "d, key desc", "n, t", "key"}, "d < 10"},
+	{"key, int(value)", []string{"int(value)", "int(value) desc, key", "key desc"}, ""},
+	{"key, strlen(value) as s, upper(key)", []string{"upper(key) desc", "s, key", "s desc"}, "s < 3"},
+	{"key, 1 + 2 as c, 'a' + 'b' as s, int(value) + 1 + 1 as n", []string{"n", "c, key desc", "s desc, n"}, "n != 5"},
+	{"key, true | (count(1) > 0) as x", []string{"x, key desc", "key"}, ""},
+	{"key, (count(1) > 0) | true as x, (sum(int(value)) > 0) & (1 = 2) as y", []string{"x, key desc", "y, x"}, ""},
+	{"key, value = '7' as b, is_int(value) as i", []string{"b", "i desc, b, key", "b desc"}, "i"},
+	{"key, float(value) as f, f * 2 as g", []string{"f", "g desc, key"}, ""},
+	{"key, split(value, ',') as l, len(l) as c", []string{"c", "c desc, key", "l"}, "c > 1"},
+	{"key, 10 / (int(value) - 7) as q", []string{"q", "q desc"}, ""},
+	{"key, substr(value, 0, 1) + key as t, value", []string{"t", "value, t desc"}, ""},
+}
+
+// aggregate field lists: (fields, GROUP BY, ORDER BY items)
+type psAgg struct {
+	fields string
+	group  string
+	orders []string
+}
+
+var psAggs = []psAgg{
+	{"substr(key, 0, 1) as g, count(1) as c, sum(int(value)) as s", "g", []string{"g desc", "c desc, g", "s, g"}},
+	{"value as g, count(1) as c", "g", []string{"c desc, g", "g"}},
+	{"key, count(1) as c, sum(int(value)) as s", "key", []string{"key desc", "s, key", "c"}},
+	{"count(1), sum(int(value)), min(int(value)), max(int(value)), avg(int(value))", "", nil},
+	{"count(1) as c, sum(int(value)) * 2 + count(1) as x", "", []string{"c", "x desc"}},
+	{"strlen(value) as g, group_concat(key, ',') as ks, json_arrayagg(key) as js", "g", []string{"g", "ks desc"}},
+	{"is_int(value) as g, strlen(key) as h, count(1) as c", "g, h", []string{"c desc, g, h", "h, g"}},
+	{"key, sum(int(value)) * 2 + count(1) as x", "key", []string{"x desc, key", "key"}},
+	{"key, value, count(1) as c", "key, value", []string{"value, key", "c, key desc"}},
+	{"substr(key, 0, 1) as g, max(int(value)) - min(int(value)) as w, avg(int(value)) as a", "g", []string{"w desc, g", "a, g"}},
+	{"upper(substr(key, 0, 1)) as g, count(1) as c, 1 + 1 as two", "g, two", []string{"g"}},
+	{"key, count(1) as c", "key", []string{"key", "key asc"}},
+	{"int(value) as n, sum(n) as s, count(1) as c", "n", []string{"n", "s desc"}},
+	{"int(value) as n, n + 1 as m, count(1) as c", "n, m", []string{"m desc"}},
+	{"value as v, count(1) + 0.5 as h", "v", []string{"v"}},
+	{"value as v, sum(int(v)) + strlen(v) as h", "v", []string{"v"}},
+	{"strlen(value) as g, quantile(int(value), 0.5) as q", "g", []string{"g"}},
+}
+
+// statements with a fixed reading: every rejection buildFinalPlan and the Init calls can raise,
+// ORDER BY / GROUP BY lookups, statement kinds outside this twin
+var psDirected = []string{
+	"select key, count(1) where key != 'zzzz'", "select key where key != 'zzzz' group by key", "select key, value where key != 'zzzz' group by key, value",
+	"select key, value, count(1) where key ^= 'k' group by key", "select count() where key ^= 'k'", "select sum(1, 2) where key ^= 'k'",
+	"select group_concat(key) where key ^= 'k'", "select group_concat(key, 1) where key ^= 'k'", "select group_concat(key, '-' + '>') as s where key ^= 'k'",
+	"select group_concat(key, value) where key ^= 'k'", "select key, false & (count(1) > 0) as x where key != 'zzzz' group by key",
+	"select true | (count(1) > 0) as x, key where key > ''", "select key, (count(1) > 0) | true as x where key > ''", "select int(value) as n, sum(n) as s where key > ''",
+	"select key where key ^= 'k' order by nosuch", "select key, split(value, ',') as l where key ^= 'k' order by l", "select * where key ^= 'k' order by key",
+	"where key ^= 'k' order by key", "where key ^= 'k' limit 2", "select * where key ^= 'k' order by key desc limit 1, 2", "select * where key ^= 'k' limit 0",
+	"select * where key ^= 'k' limit 1,", "select * where key ^= 'k' limit 1 2", "select * where key ^= 'k' limit 2 order by key desc",
+	"select * where key ^= 'k' limit 1, 2, 3", "select * where key ^= 'k' limit 5000", "select * where key ^= 'k' order by key order by value",
+	"select key as a, a as b, b as a where key ^= 'k'", "select key as a, a + 'x' as b, b + 'y' as c where key ^= 'k' order by c desc limit 2",
+	"select value as key2, count(1) where key ^= 'k' group by key2 order by key2", "select key, count(1) as c where key ^= 'k' group by key order by key limit 2",
+	"select key, count(1) as c where key ^= 'k' group by key limit 1, 2", "select count(1) as c where key ^= 'k' limit 1", "select count(1) as c where key ^= 'k' order by c limit 1",
+	"select count(1) as c where false", "select key, count(1) as c where key = 'a' & key = 'b' group by key",
+	"select key, sum(int(value)) / (count(1) - 1) as x where key ^= 'k' group by key", "select key, avg(float(value)) as a where key ^= 'k' group by key order by a",
+	"select key, count(1) where key ^= 'k' group by count(1)", "select key, count(1) as c where key ^= 'k' group by c", "select key, count(1) where key ^= 'k' group by nosuch",
+	"select key, count(sum(1)) where key ^= 'k' group by key", "select key, json(value) as j where key ^= 'k'", "select key where key ~= '^k'",
+	"select key, value where value ~= '7' order by key desc", "put ('zzz', 'b')", "remove 'zzz'", "delete where key = 'zzz'", "select", "", ";",
+	"select key,, value where key ^= 'k'", "select key value where key ^= 'k'", "select key as where key ^= 'k'", "select key as 1 where key ^= 'k'",
+	"select key, * where key ^= 'k'", "select *, key where key ^= 'k'", "select key where key ^= 'k' group key", "select key where key ^= 'k' order key",
+}
+
+func psObs(res runResult) string {
+	switch {
+	case res.Panic != "":
+		return "PPanic"
+	case res.Err != nil && res.BuildErr:
+		switch errClass(res.Err) {
+		case "syntax":
+			return fmt.Sprintf("(PReject (%d))", errPos(res.Err))
+		case "exec":
+			return fmt.Sprintf("(PBuildErr 1 (%d))", errPos(res.Err))
+		}
+		return "(PBuildErr 3 0)"
+	case res.Err != nil:
+		o := coqObs(nil, res.Err, "")
+		return "(PRunErr" + strings.TrimPrefix(strings.TrimSuffix(o, ")"), "(OErr") + ")"
+	}
+	p := make([]string, len(res.Rows))
+	for i, row := range res.Rows {
+		c := make([]string, len(row))
+		for j, col := range row {
+			c[j] = "(" + c03w2Val(col) + ")"
+		}
+		p[i] = coqList(c)
+	}
+	return "(PRows " + coqList(p) + ")"
+}
+
+// psScan finds the scan node under the projection / aggregate node
+func psScan(p any) (term, kind string) {
+	switch x := p.(type) {
+	case *kvql.FinalLimitPlan:
+		return psScan(x.ChildPlan)
+	case *kvql.FinalOrderPlan:
+		return psScan(x.ChildPlan)
+	case *kvql.ProjectionPlan:
+		return psScan(x.ChildPlan)
+	case *kvql.AggregatePlan:
+		return psScan(x.ChildPlan)
+	case kvql.Plan:
+		t, k := pbScanTerm(x)
+		return strings.NewReplacer("SEmpty", "PsEmpty", "SMget", "PsMget", "SPrefix", "PsPrefix", "SRange", "PsRange", "SFull", "PsFull").Replace(t), k
+	}
+	return "", fmt.Sprintf("?%T", p)
+}
+
+func psCase(e *emitter, q string, kvs [][2]string, bucket string) {
+	rp := psReplay{Kind: "statement text through NewOptimizer(q).BuildPlan(store), drained (glue twin Model/PipelineS.v)", Query: q, Store: kvs}
+	var plan kvql.FinalPlan
+	groups := []string{}
+	modesOf := map[string][]int{}
+	outcome := ""
+	for _, m := range psModes {
+		B := m
+		if m == 0 {
+			B = 32
+		}
+		res, p := c03w2Run(q, kvs, m != 0, B)
+		if plan == nil && p != nil {
+			plan = p
+		}
+		o := psObs(res)
+		if _, have := modesOf[o]; !have {
+			groups = append(groups, o)
+		}
+		modesOf[o] = append(modesOf[o], m)
+		switch {
+		case res.Panic != "":
+			outcome = "panic"
+		case res.BuildErr && errClass(res.Err) == "syntax":
+			outcome = "rejected"
+		case res.BuildErr:
+			outcome = "build_error"
+		case outcome == "":
+			outcome = "accepted"
+		}
+		short := o
+		if len(short) > 160 {
+			short = short[:160] + "..."
+		}
+		rp.Obs = append(rp.Obs, fmt.Sprintf("mode %d: %s", m, short))
+	}
+	planTerm := "None"
+	if plan != nil {
+		parts := &c03w2Parts{}
+		shape, ok := c03w2Walk(plan, parts)
+		scanTerm, scanKind := psScan(plan)
+		types := make([]string, len(plan.FieldTypeList()))
+		for i, t := range plan.FieldTypeList() {
+			types[i] = c03w2TypeCtor[t]
+		}
+		rp.Plan, rp.Names = strings.Join(parts.kinds, " <- "), plan.FieldNameList()
+		if ok && scanTerm != "" {
+			planTerm = fmt.Sprintf("(Some (%s, %s, %s, %s))", coqStrList(plan.FieldNameList()), coqList(types), shape, scanTerm)
+		}
+		e.count("ps:scan=" + scanKind)
+		e.count("ps:shape=" + strings.Join(parts.kinds[:len(parts.kinds)-1], "<-"))
+	}
+	runs := make([]string, len(groups))
+	for i, o := range groups {
+		runs[i] = fmt.Sprintf("(%s, %s)", coqNatList(modesOf[o]), o)
+	}
+	e.add(fmt.Sprintf("CaseT (PSCase %s %s %s %s)", coqStr(q), coqPairs(kvs), planTerm, coqList(runs)), rp, plan != nil && len(kvs) > 0)
+	e.count("ps:" + outcome)
+	e.count("ps:class=" + bucket)
+	// the model boundary as far as the Go side can see it on the text (the Coq side decides: code 99)
+	lq := strings.ToLower(q)
+	for _, h := range [][2]string{{"~=", "regexp operator"}, {"json(", "json()"}, {"quantile", "quantile"}, {"h\u00e9llo", "non-ascii value"}} {
+		if strings.Contains(lq, h[0]) {
+			e.count("ps:outside_model_hint=" + h[1])
+		}
+	}
+	if strings.HasPrefix(strings.TrimSpace(lq), "put") || strings.HasPrefix(strings.TrimSpace(lq), "remove") || strings.HasPrefix(strings.TrimSpace(lq), "delete") {
+		e.count("ps:outside_model_hint=write statement")
+	}
+	if len(groups) > 1 {
+		e.count("ps:modes_differ(ties / batch-only errors)")
+	}
+}
+
+func psTail(r *rng, orders []string, B int) (string, string) {
+	tail, kind := "", ""
+	if len(orders) > 0 && r.chance(3, 5) {
+		tail += " order by " + pick(r, orders)
+		kind += "+order"
+	}
+	if r.chance(1, 2) {
+		start := pick(r, []int{0, 0, 1, 2, 3, 5})
+		count := pick(r, []int{0, 1, 2, 3, 4, 7, 100})
+		if r.chance(1, 3) {
+			tail += fmt.Sprintf(" limit %d", count)
+		} else {
+			tail += fmt.Sprintf(" limit %d, %d", start, count)
+		}
+		kind += "+limit"
+	}
+	return tail, kind
+}
+
+func psStream(c *runCtx, e *emitter, r *rng) {
+	e.m.Rule += "; F (ps): SELECT statement TEXTS (field lists with aliases used later and in WHERE, duplicate names, foldable fields; ORDER BY by name / by repeated expression / key asc alone / several keys; GROUP BY with every modelled aggregate, aggregates of aliases, arithmetic on aggregates; LIMIT with and without ORDER BY; WHERE with every access path incl. unsatisfiable and folded ones; every rejection of buildFinalPlan and of the Init calls; spacing / keyword case / trailing semicolons varied; malformed variants) x stores of 0..12 pairs x {row, batch 1, 2, 3, 32}: kvql.NewOptimizer(q).BuildPlan(store) drained vs Model/PipelineS.v select_stmt_text on the same text (accept / reject + position, FieldNames / FieldTypes, shape, scan node, rows, run-time error class and position)"
+	thorough := c.thorough() || c.search
+	g := newEgen(r)
+	store := func() [][2]string { return c03MakeStore(r, r.intn(13), !r.chance(1, 4)) }
+	for _, q := range psDirected {
+		psCase(e, q, store(), "directed")
+		if thorough {
+			psCase(e, psRender(r, pbTokens(q), 2, true), store(), "directed")
+		}
+	}
+	n := 330
+	if thorough {
+		n = 9000
+	}
+	for i := 0; i < n; i++ {
+		wk := pick(r, psWhereKinds)
+		wh := pick(r, psWhere[wk])
+		if r.chance(1, 10) {
+			wh = c03Where(r, g)
+			wk = "random"
+		}
+		var q, bucket string
+		if r.chance(11, 20) {
+			p := psProjs[r.intn(len(psProjs))]
+			if p.walias != "" && r.chance(1, 4) {
+				wh = "(" + wh + ") & " + p.walias
+			}
+			tail, kind := psTail(r, p.orders, 3)
+			q, bucket = "select "+p.fields+" where "+wh+tail, "projection"+kind
+			if p.fields == "*" && r.chance(1, 4) && !strings.Contains(tail, "order") {
+				q = "where " + wh + tail
+			}
+		} else {
+			a := psAggs[r.intn(len(psAggs))]
+			tail, kind := psTail(r, a.orders, 3)
+			gb := ""
+			if a.group != "" {
+				gb = " group by " + a.group
+			}
+			// ORDER BY / GROUP BY / LIMIT come in any order
+			if r.chance(1, 4) && gb != "" && tail != "" {
+				q = "select " + a.fields + " where " + wh + tail + gb
+			} else {
+				q = "select " + a.fields + " where " + wh + gb + tail
+			}
+			bucket = "aggregate" + kind
+		}
+		toks := pbTokens(q)
+		switch r.intn(8) {
+		case 0:
+			toks = append(toks, ";")
+		case 1:
+			toks = append(toks, ";", ";")
+		}
+		text := psRender(r, toks, r.intn(3), r.chance(1, 2))
+		if r.chance(1, 9) {
+			text = pbMangle(r, text)
+			bucket = "mangled"
+		}
+		psCase(e, text, store(), bucket+" where="+wk)
 	}
 }
